@@ -124,7 +124,8 @@ pub fn sketch_case_from_bytes(data: &[u8]) -> SketchCase {
         ops.push(match byte(u) % 16 {
             0..=8 => SketchOp::Access(hash_sel(u)),
             9 | 10 | 11 => SketchOp::Burst(hash_sel(u), 1 + byte(u) % 40),
-            12 | 13 => SketchOp::Estimate(hash_sel(u)),
+            12 => SketchOp::Estimate(hash_sel(u)),
+            13 => { let count = 2 + byte(u) % 10; SketchOp::Batch((0..count).map(|_| hash_sel(u)).collect()) }
             14 => SketchOp::Reset,
             _ => SketchOp::Clear,
         });
